@@ -183,21 +183,18 @@ def mutate_case(rng, case):
 
 
 CLAIMED = True
-LEVEL_TEXT = ("Theorems about the mirrored model, every fan-in-limited circuit L (closed, acyclic, <= 2 operands, constants and inputs undriven, "
-              "gates driven): C17_shape -- every returned supergate has exactly one output and its gates carry the type and the WHOLE fan-in they "
-              "have in L; C17_independence -- the inputs of every returned supergate have pairwise disjoint transitive fan-in in L (any number "
-              "of outputs); C17_cover_single -- for one output every non-input node reaching it is a gate of a returned supergate; "
-              "C17_single_output -- hence all four clauses of the property for single-output circuits (the super-circuit's domain); "
-              "C17_cover_prefilter_partial -- for any number of outputs every gate of an output cone is a gate of a supergate of the "
-              "de-duplicated list before the minimal-cover filter; C17_model_order_partial -- the model's list is in dependency order. "
-              "(Dominator theory over least closed sets: dominance is transitive and antisymmetric, strict dominators form a chain, an operand "
-              "is a tree child or sibling of its gate, a gate not dominating one of its two operands has at most one tree child.) "
-              "Theorems for all circuits and all lists: the four checkers are sound for the clauses stated over paths (C17_checkers_sound). "
-              "NOT proved: that with several outputs the minimal-cover filter never drops the last supergate holding a gate (C17_cover_full "
-              "stays a Definition; no counterexample in 60 000 model runs); this and the order of the implementation's own list are decided "
-              "per run by the verified checkers on what the implementation returned (translation validation). The super-circuit clause is "
-              "oracle-level (fill_blackbox + exhaustive evaluation). Constants of the source are regenerated on every run by a fail-closed "
-              "plug-in (C17_tables_ok).")
+LEVEL_TEXT = ("Theorem about the mirrored model, every fan-in-limited circuit L (closed, acyclic, <= 2 operands, constants and inputs undriven, "
+              "gates driven) and any number of outputs: C17_model_correct -- whenever the model returns a list, the list satisfies all four "
+              "clauses of the property: C17_shape (one output each, gates carry the type and the WHOLE fan-in they have in L), "
+              "C17_independence (inputs of a supergate have pairwise disjoint transitive fan-in), C17_cover_full (every gate in the cone "
+              "of an output is a gate of a returned supergate: the minimal-cover filter never drops the last supergate holding a gate, by a "
+              "lemma relating the dominator trees of two output cones) and the dependency order of the model's list. "
+              "(Dominator theory over least closed sets, no paths.) That a list is always returned is false (C17-F2, C17_total_refuted). "
+              "Theorems for all circuits and all lists: the four checkers are sound for the clauses stated over paths (C17_checkers_sound); "
+              "they decide the property per run on what the implementation returned (translation validation), which together with the set "
+              "comparison model = implementation ties the theorems to the code; the order of the implementation's own list is judged only "
+              "this way. The super-circuit clause is oracle-level (fill_blackbox + exhaustive evaluation). Constants of the source are "
+              "regenerated on every run by a fail-closed plug-in (C17_tables_ok).")
 LEVEL_NOTE = ("The model's searches and queues run on fuel and their results are certificate-checked inside the model (closure of every "
               "searched set, closure/route/depth of every grown set, distinct roots, frontier exhausted); the model has no value (OutOfFuel) if a "
               "check fails, which the correspondence run shows never happens; the proofs use only the checked facts and the leastness of the "
